@@ -168,3 +168,69 @@ package mvp5
 //@   loop 1: invariant comp.disjointLines(u.l1d) ==> (forall j, k :: 0 <= j && j < _idx0 && 0 <= k && k < 64 && int(u.l1d.lines[j].Boundary[0]) + k < len(u.ctx.Memory) ==> memAt(u, int(u.l1d.lines[j].Boundary[0]) + k) == u.l1d.lines[j].Data[k])
 //@   loop 1: invariant i > 0 ==> (forall k :: 0 <= k && k < 64 && int(u.l1d.lines[_idx0].Boundary[0]) + k < len(u.ctx.Memory) ==> memAt(u, int(u.l1d.lines[_idx0].Boundary[0]) + k) == u.l1d.lines[_idx0].Data[k])
 //@   loop 1: invariant forall x :: 0 <= x && x < len(u.ctx.Memory) && x <= 2147483647 && (forall j :: 0 <= j && j < _idx0 ==> !comp.covers(u.l1d.lines[j], int32(x))) && !comp.covers(u.l1d.lines[_idx0], int32(x)) ==> memAt(u, x) == old(memAt(u, x))
+
+// ---------------------------------------------------------------- branch target buffer and branch unit (C03)
+// The BTB is a bounded FIFO of (pc -> last resolved target) pairs with at most
+// one entry per pc. get reports the recorded target of pc; add records
+// (pc, pcDest), overwriting an existing entry for pc or displacing the oldest
+// entry, and never invents an entry for another pc.
+//@ spec func btbHas(b *branchTargetBuffer, pc int32) bool = exists a :: lo(b.buffer) <= a && a < hi(b.buffer) && at(b.buffer, a).pc == pc
+//@ spec func btbFirst(b *branchTargetBuffer, pc int32, a int) bool = lo(b.buffer) <= a && a < hi(b.buffer) && at(b.buffer, a).pc == pc && (forall c :: lo(b.buffer) <= c && c < a ==> at(b.buffer, c).pc != pc)
+//@ spec func wfBTB(b *branchTargetBuffer) bool = b != nil && b.length > 0 && len(b.buffer) <= b.length
+
+//@ func (*branchTargetBuffer).get
+//@   mode int
+//@   requires b != nil
+//@   ensures result1 == btbHas(b, pc)
+//@   ensures forall a :: btbFirst(b, pc, a) ==> result == at(b.buffer, a).pcDest
+//@   ensures !result1 ==> result == 0
+//@   assigns nothing
+//@   loop 0: invariant forall c :: lo(b.buffer) <= c && c < lo(b.buffer) + _idx0 ==> at(b.buffer, c).pc != pc
+
+//@ func (*branchTargetBuffer).add
+//@   mode int
+//@   requires wfBTB(b)
+//@   ensures wfBTB(b) && b.length == old(b.length)
+//@   ensures btbHas(b, pc)
+//@   ensures forall a :: lo(b.buffer) <= a && a < hi(b.buffer) && at(b.buffer, a).pc != pc ==> (exists c :: old(lo(b.buffer)) <= c && c < old(hi(b.buffer)) && old(at(b.buffer, c)) == at(b.buffer, a))
+//@   ensures forall a :: btbFirst(b, pc, a) ==> at(b.buffer, a).pcDest == pcDest
+//@   assigns b.buffer, all []entry
+//@   loop 0: invariant 0 <= i && i <= len(b.buffer) && b.buffer == old(b.buffer)
+//@   loop 0: invariant forall c :: lo(b.buffer) <= c && c < lo(b.buffer) + i ==> at(b.buffer, c).pc != pc
+
+//@ func (*fetchUnit).reset
+//@   inline
+//@ func (*decodeUnit).notifyBranchResolved
+//@   inline
+
+// assert: unconditional jump with a recorded target -> the fetch unit is
+// redirected to that target (pending fetches to be cleaned) and no check is
+// armed; unknown target -> armed with -1 (always a flush); conditional branch
+// -> armed with the fall-through pc+4; anything else disarms.
+//@ spec func fuSame(fu *fetchUnit) bool = fu.pc == old(fu.pc) && fu.complete == old(fu.complete) && fu.toCleanPending == old(fu.toCleanPending)
+//@ func (*btbBranchUnit).assert
+//@   mode bv
+//@   requires bu != nil && bu.btb != nil && bu.fu != nil && runner.Runner != nil
+//@   ensures risc.insType(runner.Runner).IsUnconditionalBranch() && !btbHas(bu.btb, runner.Pc) ==> bu.toCheck && bu.expectation == -1 && fuSame(bu.fu)
+//@   ensures risc.insType(runner.Runner).IsUnconditionalBranch() && btbHas(bu.btb, runner.Pc) ==> !bu.toCheck && !bu.fu.complete && bu.fu.toCleanPending
+//@   ensures forall a :: risc.insType(runner.Runner).IsUnconditionalBranch() && btbFirst(bu.btb, runner.Pc, a) ==> bu.fu.pc == at(bu.btb.buffer, a).pcDest
+//@   ensures risc.insType(runner.Runner).IsConditionalBranch() ==> bu.toCheck && bu.expectation == runner.Pc + 4 && fuSame(bu.fu)
+//@   ensures !risc.insType(runner.Runner).IsBranch() ==> !bu.toCheck && bu.expectation == old(bu.expectation) && fuSame(bu.fu)
+//@   assigns bu.toCheck, bu.expectation, bu.fu.pc, bu.fu.complete, bu.fu.toCleanPending
+
+//@ func (*btbBranchUnit).shouldFlushPipeline
+//@   mode bv
+//@   requires bu != nil
+//@   ensures result == (old(bu.toCheck) && old(bu.expectation) != pc)
+//@   ensures !bu.toCheck && bu.expectation == old(bu.expectation)
+//@   assigns bu.toCheck
+
+// a resolved jump records its target, restarts the fetch unit at the resolved
+// target (whatever was predicted) and lifts the decode stall.
+//@ func (*btbBranchUnit).notifyJumpAddressResolved
+//@   mode bv
+//@   requires bu != nil && wfBTB(bu.btb) && bu.fu != nil && bu.du != nil
+//@   ensures bu.fu.pc == pcTo && !bu.fu.complete && bu.fu.toCleanPending && !bu.du.pendingBranchResolution
+//@   ensures wfBTB(bu.btb) && btbHas(bu.btb, pc) && (forall a :: btbFirst(bu.btb, pc, a) ==> at(bu.btb.buffer, a).pcDest == pcTo)
+//@   ensures bu.toCheck == old(bu.toCheck) && bu.expectation == old(bu.expectation)
+//@   assigns bu.btb.buffer, all []entry, bu.fu.pc, bu.fu.complete, bu.fu.toCleanPending, bu.du.pendingBranchResolution
